@@ -6,4 +6,4 @@ Extraction Language OCaml.
 Extraction "../build/ocaml/C20/model.ml" N.succ Z.succ Pos.succ Nat.add
   vcmp spec_contains py_int impl_major_minor is_py_version_compatible py_version_score manylinux_parse
   manylinux_compatible check_platform check_abi tag_score sortkey sort_candidates check_usability
-  eligible wheel_cand sdist_cand cfg_of sys_tags wf_raw alias glibc_version_of.
+  eligible wheel_cand sdist_cand cfg_of sys_tags wf_raw alias glibc_version_of wheel_fields_of wheel_cand_of_filename.
